@@ -57,7 +57,7 @@ LABEL_NAMES = ["class", "let", "static", "enum", "await", "arguments", "eval", "
                "typeof", "void", "with", "yield", "super", "throw", "try", "catch", "do", "while", "in", "function"]
 # names the generated helper code uses; never handed out as variable names
 HELPERS = {"at", "ix", "tr", "pg", "ps", "cnd", "cnq", "cl", "push", "runfs", "two", "h3", "P", "S", "T", "arr", "mp", "sv", "sl",
-           "fs", "tv", "main", "r", "myInt", "idxs", "mkP", "pint", "sb", "ip", "sp", "any", "pp", "ppush", "runpp", "use_uint32", "use_uint", "use_uintptr", "use_uint8", "use_uint16", "u", "sw"}
+           "fs", "tv", "main", "r", "myInt", "idxs", "mkP", "pint", "sb", "ip", "sp", "any", "pp", "ppush", "runpp", "use_uint32", "use_uint", "use_uintptr", "use_uint8", "use_uint16", "u", "sw", "obs", "eqs", "strs", "n", "v", "w", "ok", "okA", "ch", "m", "t", "id"}
 
 
 class Gen:
@@ -99,7 +99,7 @@ class Gen:
         r = self.rng
         w = {"plain": 4, "opassign": 4, "swap": 1, "rotate": 0.7, "tuple": 0.8}
         if not simple:
-            w.update({"evalorder": 2.5, "closure": 0.8, "runfs": 0.5, "shadow": 1.2, "runpp": 0.4, "unsigned": 3.0})
+            w.update({"evalorder": 2.5, "closure": 0.8, "runfs": 0.5, "shadow": 1.2, "runpp": 0.4, "unsigned": 3.0, "ifaceconv": 3.0})
             if getattr(self, "_hdrs", None):
                 # closures / pointers capturing loop HEADER variables of the enclosing loops (inner and outer)
                 w.update({"capture-closure": 2.5, "capture-pointer": 2.0})
@@ -155,6 +155,11 @@ class Gen:
             return self.add_act([6, 0, 0, 0, 0, 0])
         if k == "runpp":
             return self.add_act([13, 0, 0, 0, 0, 0])
+        if k == "ifaceconv":
+            kk, si = r.randrange(0, len(IK)), r.randrange(0, len(IS_NAMES))
+            self.count("ifaceconv:kind:%s" % IK[kk][0])
+            self.count("ifaceconv:site:%s" % IS_NAMES[si])
+            return self.add_act([15, kk, si, r.choice([0, 1, 2, 3, 8, 9, 10, 11] + list(range(13, 29))), 0, 0])
         if k == "unsigned":
             # binary operator on an unsigned type with a boundary CONSTANT on either side and a run-time operand whose top bit
             # is often set; the result is used in sign-sensitive contexts (print, ==, >, /, conversion to 64 bit / float, switch, %)
@@ -620,6 +625,124 @@ func sb(j int) string { return string(rune(j)) }
 
 CELLS = ["arr[%d]", "mp[%d]", "sv.x[%d]", "sl[%d]"]
 OPS = {0: "+=", 1: "-="}
+# implicit conversions to interface types: boxed kinds (name, Go type, value expression in n, comparable?, JS boxing pattern)
+IK = [("int", "int", "n", True, r"new \$Int\("), ("string", "string", "strs[n&3]", True, r"new \$String\("),
+      ("bool", "bool", "n&1 == 1", True, r"new \$Bool\("), ("float64", "float64", "float64(n)", True, r"new \$Float64\("),
+      ("myInt", "myInt", "myInt(n)", True, r"new myInt\("), ("uint8", "uint8", "uint8(n)", True, r"new \$Uint8\("),
+      ("arr", "[2]int", "[2]int{n, 7}", True, r"new arrayType(\$\d+)?\("), ("map", "map[int]int", "map[int]int{1: n}", False, r"new mapType(\$\d+)?\("),
+      ("fn", "func() int", "func() int { return 0 }", False, r"new funcType(\$\d+)?\("),
+      ("chan", "chan int", "make(chan int, 2)", False, r"new chanType(\$\d+)?\("),
+      ("P", "P", "P{n, 1}", True, None), ("ptrS", "*S", "&S{n: n}", False, None)]
+IS_NAMES = ["return g() (multi-value forwarding)", "f(g()) (multi-value call as argument list)", "a, b = g()", "var a, b I = g()",
+            "channel send", "map store", "slice literal element", "struct literal field", "map literal value", "range variable",
+            "return v", "var v I = v", "argument", "named results v, ok = g(); return", "return g() (3 results, middle one interface)"]
+
+
+def iface_site(k, si):
+    """Go source of the site function sk<k>_<si>(id, n int) and its helpers"""
+    name, T, VAL, cmp_, _ = IK[k]
+    H = "sk%d_%d" % (k, si)
+    val, two, pair, tri = "val%d(n)" % k, "two%d(n)" % k, "pair%d(n)" % k, "tri%d(n)" % k
+    helper, body = "", ""
+    if si == 0:
+        helper = "func %s_h(n int) (interface{}, bool) { return %s }" % (H, two)
+        body = "v, _ := %s_h(n)" % H
+    elif si == 1:
+        helper = "func %s_h(v interface{}, ok bool) interface{} { return v }" % H
+        body = "v := %s_h(%s)" % (H, two)
+    elif si == 2:
+        body = "var v interface{}; var ok bool; v, ok = %s; _ = ok" % two
+    elif si == 3:
+        body = "var v, w interface{} = %s; _ = w" % pair
+    elif si == 4:
+        body = ("ch := make(chan interface{}, 1); select { case ch <- %s: default: }; var v interface{}; "
+                "select { case v = <-ch: default: }") % val
+    elif si == 5:
+        body = "m := map[int]interface{}{}; m[1] = %s; v := m[1]" % val
+    elif si == 6:
+        body = "v := []interface{}{%s}[0]" % val
+    elif si == 7:
+        body = "v := struct{ f interface{} }{%s}.f" % val
+    elif si == 8:
+        body = "v := map[int]interface{}{1: %s}[1]" % val
+    elif si == 9:
+        body = "var v interface{}; for _, v = range []%s{%s} { }" % (T, val)
+    elif si == 10:
+        helper = "func %s_h(n int) interface{} { return %s }" % (H, val)
+        body = "v := %s_h(n)" % H
+    elif si == 11:
+        body = "var v interface{} = %s" % val
+    elif si == 12:
+        helper = "func %s_h(v interface{}) interface{} { return v }" % H
+        body = "v := %s_h(%s)" % (H, val)
+    elif si == 13:
+        helper = "func %s_h(n int) (v interface{}, ok bool) { v, ok = %s; return }" % (H, two)
+        body = "v, _ := %s_h(n)" % H
+    else:
+        helper = "func %s_h(n int) (int, interface{}, bool) { return %s }" % (H, tri)
+        body = "_, v, _ := %s_h(n)" % H
+    eq = "okA && v == interface{}(%s)" % val if cmp_ else "okA"
+    return "%s\nfunc %s(id, n int) { %s; _, okA := v.(%s); obs(id, v, eqs(%s)) }\n" % (helper, H, body, T, eq)
+
+
+def iface_kind_helpers(k):
+    name, T, VAL, _, _ = IK[k]
+    return ("func val%d(n int) %s { return %s }\nfunc two%d(n int) (%s, bool) { return %s, n&1 == 0 }\n"
+            "func pair%d(n int) (%s, %s) { return %s, %s }\nfunc tri%d(n int) (int, %s, bool) { return n, %s, true }\n") % (
+        k, T, VAL, k, T, VAL, k, T, T, VAL, VAL, k, T, VAL)
+
+
+OBS_SRC = """
+var strs = []string{"a", "bb", "ccc", "dddd"}
+
+func eqs(b bool) string {
+	if b {
+		return "true"
+	}
+	return "false"
+}
+
+func obs(id int, v interface{}, eq string) {
+	k, x := "other", -1
+	switch t := v.(type) {
+	case int:
+		k, x = "int", t
+	case string:
+		k, x = "string", len(t)
+	case bool:
+		k, x = "bool", 0
+		if t {
+			x = 1
+		}
+	case float64:
+		k, x = "float64", int(t)
+	case myInt:
+		k, x = "myInt", int(t)
+	case uint8:
+		k, x = "uint8", int(t)
+	case [2]int:
+		k, x = "arr", t[0]
+	case map[int]int:
+		k, x = "map", t[1]
+	case func() int:
+		k, x = "fn", 0
+	case chan int:
+		k, x = "chan", cap(t)
+	case P:
+		k, x = "P", t.a
+	case *S:
+		k, x = "ptrS", t.n
+	}
+	println("v", id, k, x, eq)
+}
+"""
+
+
+def iface_sources(pairs):
+    ks = sorted({k for k, _ in pairs})
+    return OBS_SRC + "".join(iface_kind_helpers(k) for k in ks) + "".join(iface_site(k, si) for k, si in sorted(set(pairs)))
+
+
 UTYPES = ["uint32", "uint", "uintptr", "uint8", "uint16"]
 UOPS = ["&", "|", "^", "&^", "+", "-", "*", "/", "%", "<<", ">>"]
 UCONST_NAMES = ["top-bit", "all-ones", "top-bit-clear", "upper-half", "upper-nibble", "one", "0x55..", "0xAA.."]
@@ -732,6 +855,8 @@ class Render:
             return ["ppush(%d, &%s)" % (aid, vn(a))]
         if kind == 13:
             return ["runpp(%d)" % aid]
+        if kind == 15:
+            return ["sk%d_%d(%d, %s)" % (a, b, aid, vn(c))]
         if kind == 14:
             dst, x, op, cs, ty = a, b, c, d, e
             T, w = UTYPES[ty], uwidth(ty)
@@ -855,7 +980,8 @@ class Render:
     def program(self):
         g = self.g
         gn = g.gnames
-        self.out = [PRELUDE % dict(G0=gn[0], G1=gn[1], G2=gn[2], G3=gn[3])]
+        self.out = [PRELUDE % dict(G0=gn[0], G1=gn[1], G2=gn[2], G3=gn[3]),
+                    iface_sources([(a[1], a[2]) for a in g.acts if a[0] == 15])]
         for fi, f in enumerate(g.fns):
             self.names = f["names"]
             self.labels = f["labels"]
@@ -891,7 +1017,7 @@ def render(g):
 # skeleton of the emitted JavaScript
 # --------------------------------------------------------------------------------------
 
-_MARK = re.compile(r"(?<![\w$.])(at|ix|tr|pg|ps|push|ppush|runfs|runpp|cl|cnd|cnq)\((\d+)[,)]")
+_MARK = re.compile(r"(?<![\w$.])(at|ix|tr|pg|ps|push|ppush|runfs|runpp|cl|cnd|cnq|sk\d+_\d+)\((\d+)[,)]")
 # a desugaring temporary is a STATEMENT `tmp = operand;` (temporaries of translateExpr live inside expressions)
 _TMPDEF = re.compile(r"^(_slice|_index|_struct|_ptr|_val)(?:\$\d+)? = ")
 _LABEL_LINE = re.compile(r"^([^\s:(){};=]+):$")
@@ -1125,6 +1251,13 @@ def witness_jobs():
         parts.append(body.replace("func main()", "func case_%s()" % cid))
         calls.append('\tprintln("== %s")\n\tcase_%s()' % (cid, cid))
     src = HDR + "\n\n".join(parts) + "\n\nfunc main() {\n" + "\n".join(calls) + "\n}\n"
+    # every boxed kind x every implicit-conversion site, several run-time values (exhaustive, one program)
+    pairs = [(k, si) for k in range(len(IK)) for si in range(len(IS_NAMES))]
+    msrc = ("package main\n\ntype S struct {\n\tx [4]int\n\tn int\n}\n\ntype P struct{ a, b int }\n\ntype myInt int\n" +
+            iface_sources(pairs) + "\nfunc main() {\n\tfor _, n := range []int{0, 1, -3, 7, 300} {\n" +
+            "".join("\t\tsk%d_%d(%d, n)\n" % (k, si, k * 100 + si) for k, si in pairs) + "\t}\n}\n")
+    jobs.append({"id": "c_ifacematrix", "files": {"main.go": msrc}, "variants": ["plain"], "native": True,
+                 "timeout": JOB_TIMEOUT, "keep_js": True})
     jobs.append({"id": "c_corpus", "files": {"main.go": src}, "variants": ["plain"], "native": True, "timeout": JOB_TIMEOUT,
                  "keep_js": True})
     return jobs
@@ -1229,6 +1362,9 @@ def program_batch(chk, gens, label, scratch, skeleton=True):
         chk.add_case("js-parses", r["id"], kindkey="node-check")
         if ok is False:
             chk.add_mismatch("js-parses", op, "syntax error: " + err, "valid JavaScript", signature=None)
+        # I-tie: the boxing conversion emitted at every implicit-conversion site
+        if r["runs"]["plain"].get("js"):
+            check_boxing(chk, g, r["id"], r["runs"]["plain"]["js"])
         # I-tie: direct-mode skeleton + op-assign temporaries
         if skeleton and r["runs"]["plain"].get("js"):
             bodies = fn_bodies(r["runs"]["plain"]["js"], len(g.fns))
@@ -1258,6 +1394,27 @@ def program_batch(chk, gens, label, scratch, skeleton=True):
                                       " ".join(toks), mskels[fi])
                 check_tmps(chk, g, r["id"], fi, tmps, toks)
     return nfail
+
+
+def js_function(js, name):
+    m = re.search(r"\n(\t+)%s = function[^\n]*\{\n(.*?)\n\1\};" % re.escape(name), js, re.S)
+    return m.group(2) if m else None
+
+
+def check_boxing(chk, g, pid, js):
+    """every implicit conversion of a concrete value of a boxed kind to an interface type must be emitted as the boxing
+    constructor of that kind (`new $Int(x)`, `new $String(s)`, `new arrayType(a)` …) inside the site function or its helper"""
+    for k, si in sorted({(a[1], a[2]) for a in g.acts if a[0] == 15}):
+        pat = IK[k][4]
+        if pat is None:
+            continue
+        name = "sk%d_%d" % (k, si)
+        text = (js_function(js, name) or "") + "\n" + (js_function(js, name + "_h") or "")
+        chk.add_case("boxing-at-site", "%s %s" % (pid, name), kindkey="boxing-at-site")
+        if not re.search(pat, text):
+            chk.add_tie_break("boxing-at-site", json.dumps({"id": pid, "site": IS_NAMES[si], "kind": IK[k][0],
+                                                            "go": iface_site(k, si)}),
+                              "no boxing constructor in: " + text.strip()[:400], "pattern " + pat)
 
 
 def has_range(g, stmts):
@@ -1666,6 +1823,10 @@ def run(tier, seed):
             kind = {"w": "witness", "c": "corpus", "t": "targeted-identifier"}[r["id"][0]]
             chk.add_case("corpus", r["id"], kindkey=kind, sample={"tie": "corpus", "op": r["id"], "impl": canon(js_obs)[:300],
                                                                    "spec": canon(nat_obs)[:300]})
+            if r["id"] == "c_ifacematrix" and r["runs"]["plain"].get("js"):
+                class _G:
+                    acts = [[15, k, si, 0, 0, 0] for k in range(len(IK)) for si in range(len(IS_NAMES))]
+                check_boxing(chk, _G, r["id"], r["runs"]["plain"]["js"])
             parse_bad = None
             if r["runs"]["plain"].get("js"):
                 ok, err = node_check(r["runs"]["plain"]["js"], scratch, r["id"])
